@@ -55,6 +55,9 @@ pub assume_specification [core::str::from_utf8_unchecked_mut] (b: &mut [u8]) -> 
 pub assume_specification<T: Clone> [<[T]>::fill] (s: &mut [T], v: T)
     ensures final(s)@.len() == old(s)@.len(), forall|i: int| 0 <= i < final(s)@.len() ==> final(s)@[i] == v;
 
+pub assume_specification<T> [Option::<T>::or] (a: Option<T>, b: Option<T>) -> (r: Option<T>)
+    ensures r == (if a is Some { a } else { b });
+
 /// no Rust slice is longer than isize::MAX bytes (language guarantee; vstd only states usize::MAX)
 #[verifier::external_body]
 pub broadcast proof fn axiom_slice_len_bound(s: &[u8])
@@ -96,6 +99,15 @@ pub fn contains_byte(s: &[u8], v: u8) -> (r: bool)
     ensures r == (exists|i: int| 0 <= i < s@.len() && s@[i] == v),
 {
     s.contains(&v)
+}
+
+/// `hay.starts_with(needle)` for &str needles
+#[verifier::external_body]
+pub fn str_starts_with(hay: &str, needle: &str) -> (r: bool)
+    ensures r == (needle.spec_bytes().len() <= hay.spec_bytes().len()
+        && hay.spec_bytes().subrange(0, needle.spec_bytes().len() as int) == needle.spec_bytes()),
+{
+    hay.starts_with(needle)
 }
 
 /// position counted from the end: r = number of trailing elements skipped before the first match
